@@ -13,7 +13,10 @@ Statement groups = actions (the split points are the blocking points and the yie
 guard-on build):
 
   Open      Lock; isOpen? ; transport.Open(); go readLoop; isOpen = true; closeChan = make; Unlock   (one action)
-  IsOpen    RLock; read; RUnlock                                                                    (one action)
+  IsOpen    RLock; !isOpen -> false; read loop of this incarnation still running -> true            (one action)
+            otherwise (and always, before the second repair: `Sys.guarded = false`) the underlying
+            transport's IsOpen() is called HOLDING the read lock -> `atSignal`; over a thrift.TSocket
+            that call waits for a pending Read (second action, blocked while the loop is `reading`)
   close(c)  Lock; if !isOpen {Unlock; return NOT_OPEN}            -> `atSignal` (yield point adapter.close.presignal)
             closeSignal <- {}; transport.Close(); closeChan <- c; close(closeChan);
             monitor <- c (non-blocking); isOpen = false; Unlock   (second action; blocks while closeSignal is full)
@@ -95,6 +98,7 @@ structure Call where
 
 structure Sys where
   fresh : Bool
+  guarded : Bool             -- IsOpen asks the underlying transport only once the read loop has returned (repaired code)
   isOpen : Bool
   mu : Option Pid
   sharedSig : Nat            -- the single closeSignal of the code before the repair
@@ -107,8 +111,8 @@ structure Sys where
   panicked : Bool            -- close of a closed channel
   deriving DecidableEq, Repr
 
-def init (fresh : Bool) : Sys :=
-  { fresh := fresh, isOpen := false, mu := none, sharedSig := 0, incs := [], calls := [],
+def init (fresh : Bool) (guarded : Bool := true) : Sys :=
+  { fresh := fresh, guarded := guarded, isOpen := false, mu := none, sharedSig := 0, incs := [], calls := [],
     mon := none, monLog := [], monSent := 0, monDropped := 0, panicked := false }
 
 inductive Action where
@@ -179,7 +183,16 @@ def step (s : Sys) : Action → Option Sys
       else if !openOk then some (setCall s i (.done .other))
       else some (setCall { s with isOpen := true, incs := s.incs ++ [newInc] } i (.done .ok))
     | some ⟨.isOpen, .start⟩ =>
-      if s.mu.isSome then none else some (setCall s i (.done (.bool s.isOpen)))
+      if s.mu.isSome then none
+      else if s.isOpen && (if s.guarded then decide (s.incs[s.incs.length - 1]?.map Inc.loop = some .done) else true) then
+        -- `f.transport.IsOpen()`: an environment call made holding the read lock (the model's one
+        -- mutex stands for the RWMutex; readers excluding each other only matters here)
+        some (setCall { s with mu := some (.call i) } i .atSignal)
+      else some (setCall s i (.done (.bool s.isOpen)))
+    | some ⟨.isOpen, .atSignal⟩ =>
+      -- inside thrift's TSocket.IsOpen: the connectivity check reads from the fd and waits for a pending Read
+      if s.incs[s.incs.length - 1]?.map Inc.loop = some .reading then none
+      else some (setCall { s with mu := none } i (.done (.bool s.isOpen)))
     | some ⟨.close, .start⟩ =>
       if s.mu.isSome then none
       else if !s.isOpen then some (setCall s i (.done .notOpen))
